@@ -173,6 +173,11 @@ def run_check(prop, tier, seed=0):
                             if r:
                                 r["violations"] = max(0, r["violations"] - 1)
                                 r["ok"] = r.get("ok", 0) + 1
+                        elif o["key"] in common:
+                            # both evaluations report this instance: the inlined one saw more of the code, its account is kept
+                            o2 = v2[rid][o["key"]]
+                            o["detail"] = o2.get("detail", o["detail"])
+                            o["where"] = o2.get("where") or o["where"]
                     if v2.get(rid) and not common:
                         # the rule fails on both, under different instance names (a helper is attributed to its callers on
                         # the inlined views): report what the inlined evaluation names
